@@ -151,8 +151,7 @@ func init() {
 // defines it, else the previously registered external (if any) keeps its behaviour.
 func redirectToHarnessChained(ext, harness string) {
 	prev := externals[ext]
-	var self externalFn
-	self = func(fr *frame, args []value) value {
+	self := func(fr *frame, args []value) value {
 		if h := harnessFunc(fr.i, harness); h != nil {
 			stub(ext + " (cut: model function " + harness + " of the harness)")
 			return call(fr.i, fr, token.NoPos, h, args)
@@ -167,8 +166,7 @@ func redirectToHarnessChained(ext, harness string) {
 			}
 			panic(pathAbort{"unsupported", "no model for external function " + fn.String()})
 		}
-		delete(externals, ext)
-		defer func() { externals[ext] = self }()
+		skipExternalOnce = fn // run the real body (the externals lookup is cached per function)
 		return callSSA(fr.i, fr.caller, token.NoPos, fn, args, nil)
 	}
 	externals[ext] = self
